@@ -89,7 +89,7 @@ EVAL_ASSUME = ENGINE_ASSUME + [
     "rules_ok: conditions are side-effect free; actions are assignments over side-effect free expressions, control built-ins and side-effect free calls "
     "(mutating fact methods are covered by the correspondence only)",
     "dependency_hypothesis (explicit in every theorem that needs it): a successful assignment to x changes the from-scratch value only of nodes whose "
-    "snapshot contains x's snapshot; proofs/Findings.v proves it cannot be dropped (D2, D3: recorded findings, reproduced on the real engine on every run); "
+    "snapshot contains the snapshot of x or - for a slice element / map entry - of a may-alias element variable of the same container (Eval.reset_set, the engine's ResetElement); proofs/Findings.v proves it cannot be dropped (D2: recorded finding, reproduced on the real engine on every run; D3 was repaired in the engine); "
     "for FLAT rule sets (proofs/Frame.v: variables are top-level names, field chains and literal selectors such as F.X, F.In.X, F.Arr[2], F.M[\"k\"] - no computed selectors or functions; expressions from constants, negation, parentheses, the binary operators, the value built-ins (Max, Min, Abs, IsZero, IsNil) and calls of admitted methods (side-effect free, independent of the receiver's state, not the built-in Len) on such variables, "
     "actions are assignments and control built-ins) both hypotheses are proved (Cxx_flat theorems) - there the theorems carry no assumption on the rules",
     "facts form a tree (no aliasing between fact objects); ASCII strings",
@@ -105,7 +105,7 @@ PROPS["C03"]["theorems"] = ["C03", "C03_semantic"]
 PROPS["C01"] = eval_prop("C01", ["proofs/AnchorsSitesMemo.v"], ["C01", "C01_flat", "C01_sample", "C01_hypothesis_needed"],
     "C01 is proved for the engine model WITH its working memory started from arbitrary memory contents, for every budget, flag, cancellation point and "
     "map order: engine_refines_spec (the memoising run equals the run that evaluates everything from scratch) + state tracking of the from-scratch run "
-    "+ the protocol theorem C06. The hypothesis on invalidation is explicit and shown necessary by the D3 witness. Generated rule sets run on the real "
+    "+ the protocol theorem C06. The hypothesis on invalidation is explicit and shown necessary by the D2 witness. Generated rule sets run on the real "
     "engine and the model; at every ExecuteRuleEntry the harness re-evaluates the rule alone on a deep copy of the facts.")
 PROPS["C02"] = eval_prop("C02", ["proofs/AnchorsSitesMemo.v"], ["C02", "C02_flat"],
     "C02: every active rule whose from-scratch condition is true is reported as candidate in each firing cycle, and at the quiescent exit no active rule's "
@@ -366,8 +366,8 @@ def _eval_text(what):
              " Tied to the code by operator/anchor tables regenerated from the source on every run and by replaying generated rule sets on the real engine "
              "and the model (listener trace, outcome, final facts, call counts, snapshots), plus direct oracles on the implementation.",
         note="Trust: Coq kernel (+vm_compute), hand-written evaluator/engine models validated by correspondence, translator, harness. Hypotheses explicit in the "
-             "theorems: side-effect free conditions/expressions (rules_ok) and the dependency hypothesis on invalidation (shown necessary; D2/D3 are recorded "
-             "findings); both are PROVED for flat rule sets (top-level names, field chains, literal selectors, constants, !, parentheses, binary operators, receiver-independent method calls; assignments and control built-ins). Only primitive int/float operations appear under Print Assumptions.",
+             "theorems: side-effect free conditions/expressions (rules_ok) and the dependency hypothesis on invalidation (shown necessary; D2 is a recorded "
+             "finding, D3 was repaired); both are PROVED for flat rule sets (top-level names, field chains, literal selectors, constants, !, parentheses, binary operators, receiver-independent method calls; assignments and control built-ins). Only primitive int/float operations appear under Print Assumptions.",
         technique="Rocq/Coq proof: refinement of a from-scratch spec engine by the memoising engine + differential correspondence (vm_compute)",
     )
 
